@@ -503,7 +503,10 @@ class Evaluator:
                 st = None if e.slice.step is None else self.expr(e.slice.step, env, fi)
                 return v[lo:hi:st]
             return v[self.expr(e.slice, env, fi)]
-        if isinstance(e, (ast.GeneratorExp, ast.ListComp, ast.SetComp)):
+        if isinstance(e, ast.GeneratorExp):
+            # lazy, as in Python: elements are produced on demand (the source may be unbounded, e.g. itertools.count())
+            return self.comp(e.elt, e.generators, dict(env), fi)
+        if isinstance(e, (ast.ListComp, ast.SetComp)):
             out = list(self.comp(e.elt, e.generators, dict(env), fi))
             if isinstance(e, ast.SetComp):
                 return frozenset(out)
